@@ -119,3 +119,11 @@ mod tests {
         assert_eq!(aval.0[3], 1 << (438 - 384) | 1 << (479 - 384));
     }
 }
+
+#[cfg(actix_net_verif)]
+impl Availability {
+    /// Verification hook: the raw bit words.
+    pub(crate) fn verif_words(&self) -> [u128; 4] {
+        self.0
+    }
+}
